@@ -63,8 +63,30 @@ func conjuncts(e ast.Expr) []ast.Expr {
 }
 
 // shiftPredicate normalises a condition mentioning HasPipeSlot: returns the canonical conjunct set.
+// boolLocal resolves a condition that is a boolean local with a single definition to that definition
+// (`pipedFirst := !args.HasPipeSlot && pipedArg != nil; if pipedFirst {`), also under a negation.
+func boolLocal(f *an.Fn, cond ast.Expr) ast.Expr {
+	id, ok := an.Unparen(cond).(*ast.Ident)
+	if !ok {
+		return cond
+	}
+	o := an.ObjOf(f.Info(), id)
+	if o == nil {
+		return cond
+	}
+	if _, isParam := an.IsParam(f, o); isParam {
+		return cond
+	}
+	defs := an.LocalDefs(f, o)
+	if len(defs) == 1 && defs[0] != nil {
+		return defs[0]
+	}
+	return cond
+}
+
 func shiftPredicate(p *an.Prog, f *an.Fn, cond ast.Expr) (string, bool) {
 	info := f.Info()
+	cond = boolLocal(f, cond)
 	mentions := false
 	ast.Inspect(cond, func(n ast.Node) bool {
 		if sel, ok := n.(*ast.SelectorExpr); ok && p.FieldKey(info, sel) == "CallArgs.HasPipeSlot" {
@@ -501,7 +523,9 @@ func c14forms(c *an.Ctx) {
 	}
 	// convergence on evalPipeCallExpression
 	pipeCall := "(*jet.Runtime).evalPipeCallExpression"
-	if f := c.Fn("C14.forms", "(*Runtime).evalCallExpression"); f != nil {
+	// (the one-line wrapper evalCallExpression may or may not exist: what matters is that a plain call ends in
+	// evalPipeCallExpression(base, args, nil))
+	if f := p.Fn("(*Runtime).evalCallExpression"); f != nil {
 		ok := false
 		for _, call := range p.CallsIn(f, pipeCall) {
 			if len(call.Args) == 3 && an.Norm(f, call.Args[0]) == "$p0" && an.Norm(f, call.Args[1]) == "$p1" && an.Str(call.Args[2]) == "nil" {
@@ -523,6 +547,11 @@ func c14forms(c *an.Ctx) {
 		ok := false
 		for _, call := range p.CallsIn(f, "(*jet.Runtime).evalCallExpression") {
 			if len(call.Args) == 2 && an.Norm(f, call.Args[1]) == "$p0.CallArgs" {
+				ok = true
+			}
+		}
+		for _, call := range p.CallsIn(f, pipeCall) {
+			if len(call.Args) == 3 && an.Norm(f, call.Args[1]) == "$p0.CallArgs" && an.Str(call.Args[2]) == "nil" {
 				ok = true
 			}
 		}
